@@ -97,3 +97,86 @@ def run_empty_iface_fields(rep, tier):
     finally:
         ws.close()
     return [], fails
+
+
+SRC2 = '''package pv
+
+type Logger struct{ N int }
+
+type DB struct{ N int }
+
+type Cache struct{ N int }
+
+// blank guard first, then a prevented field whose type the graph provides anyway, then fields to fill
+type Server struct {
+	_     struct{}
+	Log   *Logger `wire:"-"`
+	DB    *DB
+	_     int
+	Cache *Cache `json:"c" wire:"-"`
+	Again *Logger
+}
+
+func NewLogger() *Logger { return &Logger{N: 1} }
+
+func NewDB() *DB { return &DB{N: 2} }
+
+func NewCache() *Cache { return &Cache{N: 3} }
+
+type App struct {
+	S *Server
+	L *Logger
+	D *DB
+	C *Cache
+}
+
+func NewApp(s *Server, l *Logger, d *DB, c *Cache) App { return App{s, l, d, c} }
+'''
+INJ2 = '''//go:build wireinject
+// +build wireinject
+
+package pv
+
+import "github.com/google/wire"
+
+func Init() App { panic(wire.Build(NewLogger, NewDB, NewCache, NewApp, wire.Struct(new(Server), "*"))) }
+'''
+MAIN2 = '''package main
+
+import (
+	"fmt"
+
+	"%s/pv"
+)
+
+func main() {
+	a := pv.Init()
+	fmt.Println(a.S.Log == nil, a.S.DB == a.D, a.S.Cache == nil, a.S.Again == a.L)
+}
+''' % MOD
+
+
+def run_prevented_provided(rep, tier):
+    """wire.Struct(new(S), "*"): a prevented field stays zero even when its type has a provider, the fields around blank and prevented ones
+    get exactly the designated values"""
+    ws = Workspace()
+    fails = []
+    try:
+        os.makedirs(ws.root + "/pv")
+        os.makedirs(ws.root + "/cmd/pv")
+        open(ws.root + "/pv/pv.go", "w").write(SRC2)
+        open(ws.root + "/pv/wire.go", "w").write(INJ2)
+        open(ws.root + "/cmd/pv/main.go", "w").write(MAIN2)
+        rc, out, err = ws.wire(["gen", "./pv"])
+        rep.evaluations += 4
+        rep.nontrivial.add("prevented-provided")
+        if rc != 0 or panicked(err):
+            return [], [{"stream": "c12-prevented", "why": ["wire gen fails on a struct with blank and prevented fields: " + err.strip()[-300:]], "source": SRC2 + INJ2}]
+        rc, out, err = run(["go", "run", "./cmd/pv"], cwd=ws.root, env=dict(GOENV), timeout=300)
+        if rc != 0 or out.strip() != "true true true true":
+            fails.append({"stream": "c12-prevented", "source": SRC2 + INJ2, "wire_gen.go": (ws.read("pv") or "")[:2000],
+                          "why": ["wire.Struct(new(Server), \"*\"): (Log stays nil, DB is the provided DB, Cache stays nil, Again is the provided Logger) = %s %s"
+                                  % (out.strip(), (err or "")[-200:] if rc != 0 else "")]})
+    finally:
+        ws.close()
+    return [], fails
